@@ -40,6 +40,9 @@ _BASE = {
     "bytes": T.BYTES,
     "pyobj": T.PYOBJ,
     "none": T.NONE,
+    "VSet": T.VSET,
+    "OSet": T.OSET,
+    "RKey": T.RKEY,
 }
 
 
@@ -63,6 +66,8 @@ def _ptype(n):
             return T.SetT(args[0])
         if head == "Seq":
             return T.Seq(args[0])
+        if head == "QMap":
+            return T.QMap(args[0])
         if head == "Tup":
             return T.Tup(*args)
     if isinstance(n, ast.Constant) and isinstance(n.value, str):
@@ -131,6 +136,7 @@ class Contract:
         self.invariants = {}  # loop id -> [(name, expr)]
         self.ghost_sets = []  # (objexpr, field, expr)
         self.after_loop = {}  # loop id -> [(name, expr)] asserted (checked, then assumed) at the loop's normal exit
+        self.reveals = []  # opaque specification functions whose definition this unit may use
         self.findings = {}  # clause name -> (finding id, case expr)
         self.assume_only = False  # external/trusted contract: never verified
         self.pure = False
@@ -199,6 +205,8 @@ class Contract:
                 self.assume_only = True
                 if a:
                     self.notes.append(a[0].value)
+            elif fn == "reveal":
+                self.reveals.extend(x.value for x in a)
             elif fn == "pure":
                 self.pure = True
             elif fn == "case":
